@@ -11,7 +11,7 @@ INV = ["TypeOK", "C03_SuccessOnlyIfMet", "C03_SuccessIfMetInTime", "C03_HHExactl
 
 
 def consts(**kw):
-    c = {"MaxN": 3, "Levels": LEVELS, "OOO": [True, False], "Dev": []}
+    c = {"MaxN": 3, "Levels": LEVELS, "OOO": [True, False], "Coords": [0, 1, 2, 3], "Dev": []}
     c.update(kw)
     return c
 
@@ -44,10 +44,11 @@ def run(ctx):
     #    levels, AllowOutOfOrderWrites on/off, every subset of non-empty hand-off queues), every interleaving of
     #    the owners' steps, channel sends, collector receives and the timer
     if ctx.quick():
-        ctx.write_cfg(sd, "MC3.cfg", "Spec", consts(OOO=[False]), INV)
-        ctx.tlc_check(sd, "ClusterWrite", "MC3.cfg", workers=8, timeout=900)
+        # quick: everything with one or two owners; with three owners the coordinator position chosen by the seed
         ctx.write_cfg(sd, "MC2.cfg", "Spec", consts(MaxN=2), INV)
         ctx.tlc_check(sd, "ClusterWrite", "MC2.cfg", workers=4, timeout=300)
+        ctx.write_cfg(sd, "MC3.cfg", "Spec", consts(Coords=[ctx.seed % 4], OOO=[False]), INV)
+        ctx.tlc_check(sd, "ClusterWrite", "MC3.cfg", workers=8, timeout=900)
     else:
         ctx.write_cfg(sd, "MC.cfg", "Spec", consts(), INV)
         r = ctx.tlc_check(sd, "ClusterWrite", "MC.cfg", workers=8, timeout=1500, coverage=True)
@@ -73,14 +74,14 @@ def run(ctx):
     def gen(label, **kw):
         ctx.write_cfg(sd, "G%s.cfg" % label, "GSpec", consts(**kw), extra="INVARIANT Emit")
         return ctx.tlc_generate(sd, "ClusterWriteGen", "G%s.cfg" % label, exhaustive=True, timeout=900, workers=4)
-    behs = gen("12", GenN=[1, 2], GenCoord=[0, 1, 2], GenHang=True)
+    behs = gen("12", GenN=[1, 2], GenHang=True)
     n12 = len(behs)
     if ctx.quick():
-        b3 = gen("3q", GenN=[3], GenCoord=[ctx.seed % 4], GenHang=False, OOO=[False])
+        b3 = gen("3q", GenN=[3], Coords=[ctx.seed % 4], GenHang=False, OOO=[False])
         exhaustive = False
     else:
-        b3 = gen("3", GenN=[3], GenCoord=[0, 1, 2, 3], GenHang=True, OOO=[False])
-        b3 += gen("3o", GenN=[3], GenCoord=[0, 1, 2, 3], GenHang=True, OOO=[True])
+        b3 = gen("3", GenN=[3], GenHang=True, OOO=[False])
+        b3 += gen("3o", GenN=[3], GenHang=True, OOO=[True])
         exhaustive = True
     n3 = len(b3)
     behs += b3
